@@ -216,13 +216,19 @@ func discharge(obls []*Obligation, timeoutMs int) {
 		wg.Add(1)
 		go func() {
 			defer wg.Done()
-			o.Res = solveCached(text, timeoutMs, o.Name)
+			if fullText != "" {
+				o.Res = solveCachedQuick(text, timeoutMs, o.Name)
+			} else {
+				o.Res = solveCached(text, timeoutMs, o.Name)
+			}
 			if o.Res.Status != "unsat" && fullText != "" {
 				// the slice may have dropped a contradiction that makes the path infeasible: retry unsliced
 				o.Res = solveCached(fullText, timeoutMs, o.Name)
 				text = fullText
 			}
-			if o.Res.Status == "unknown" || o.Res.Status == "error" {
+			if (o.Res.Status == "unknown" || o.Res.Status == "error") && o.Res.WallHit {
+				// undecided because the wall clock ran out before the resource limit did: a loaded machine, worth
+				// another try when nothing else is running. (Exhausting the resource limit is deterministic.)
 				retryMu.Lock()
 				retry = append(retry, retryItem{o, text})
 				retryMu.Unlock()
@@ -244,7 +250,7 @@ func discharge(obls []*Obligation, timeoutMs int) {
 			if time.Since(t0) > 90*time.Second {
 				break // the retry phase as a whole is bounded: a tree that really fails must not take forever to say so
 			}
-			r := Solve(it.text, 2*timeoutMs)
+			r := Solve(it.text, timeoutMs)
 			if r.Status == "unsat" || r.Status == "sat" {
 				r.Raw = "retry: " + r.Raw
 				it.o.Res = r
@@ -423,6 +429,18 @@ func writeQuery(text string) string {
 	file := filepath.Join(scratchDir, fmt.Sprintf("c%d.smt2", n))
 	os.WriteFile(file, []byte(text), 0o644)
 	return file
+}
+
+func solveCachedQuick(text string, timeoutMs int, hint string) SolverResult {
+	solveCacheMu.Lock()
+	e := solveCache["quick:"+text]
+	if e == nil {
+		e = &cacheEntry{}
+		solveCache["quick:"+text] = e
+	}
+	solveCacheMu.Unlock()
+	e.once.Do(func() { e.res = SolveSliced(text, timeoutMs, hint) })
+	return e.res
 }
 
 func solveCached(text string, timeoutMs int, hint ...string) SolverResult {
